@@ -1,6 +1,8 @@
 """C07 — idle connections time out, busy ones do not, dead ones are released."""
 from __future__ import annotations
 
+import time
+
 from ..wire import h1, ws
 from ..wire.h2raw import FrameBuilder, client_preface
 
@@ -21,7 +23,7 @@ RULE = ("history = 1-5 segments from {request(app delay), pipelined pair, partia
         "least one deadline or busy decision; distinct = distinct case hash")
 ASSUMPTIONS = ["partial head bytes do not restart the timer; HTTP/2 PING/SETTINGS are not activity (statement)",
                "closing earlier than the deadline is not judged here (C06 judges refused reuse)"]
-MIN_DECISIVE = {"deadline": 50, "busy": 50, "release": 20}
+MIN_DECISIVE = {"deadline": 50, "busy": 50, "release": 20, "real-census": 2}
 N_CASES = {"quick": 8000, "thorough": 150000}
 EPS = 1e-6
 
@@ -220,7 +222,138 @@ def _gen_parked(rng, tier):
                "sched": {"seed": rng.randrange(1 << 30)}, "horizon": 10 * T + 50}
 
 
+def _real_census(case, tally):
+    """Real serve() on loopback, a population of clients that die in every way a client can (reset at any phase, half-close and vanish, go
+    silent, leave mid-handshake); monitors: the process's own descriptor table (/proc/self/fd) and the number of per-connection handlers
+    constructed vs. finished.  Once every client socket is gone and the keep-alive timeout (0.4 s here) has had its turn, the descriptor
+    count has to come back to where it was before the first client: a connection the server still holds then is never released.
+    Decided on the census after the trace has been still for 4 s, never on how quickly it got there."""
+    import os
+    import random as _random
+    import socket as _socket
+    import struct as _struct
+
+    from ..world.realnet import ServeHarness
+
+    findings = []
+    be, n = case["backend"], case["count"]
+    rnd = _random.Random(case["tag"])
+    apps = {"default": [["recv_until_end"], ["respond", 200, [(b"content-length", b"2")], b"ok"]],
+            "websocket": [["recv"], ["send", {"type": "websocket.accept"}], ["recv_until_disconnect"]],
+            "by_path": {"/slow": [["recv_until_end"], ["sleep", 0.3], ["respond", 200, [(b"content-length", b"4")], b"slow"]],
+                        "/big": [["recv_until_end"], ["send", {"type": "http.response.start", "status": 200, "headers": []}]] +
+                                [["send", {"type": "http.response.body", "body": b"z" * 65536, "more_body": True}]] * 64 +
+                                [["send", {"type": "http.response.body", "body": b"", "more_body": False}]]}}
+    h = ServeHarness(be, {"keep_alive_timeout": 0.4, "graceful_timeout": 0.5, "read_timeout": None}, apps)
+
+    def fds():
+        return len(os.listdir("/proc/self/fd"))
+
+    kinds_used = []
+    try:
+        h.start()
+        h.wait_ready()
+        warm = h.connect()
+        warm.sendall(b"GET /warm HTTP/1.1\r\nHost: h\r\nConnection: close\r\n\r\n")
+        try:
+            warm.settimeout(2.0)
+            while warm.recv(65536):
+                pass
+        except OSError:
+            pass
+        warm.close()
+        time.sleep(0.3)
+        base = fds()
+        socks = []
+        for i in range(n):
+            kind = rnd.choice(["reset_idle", "reset_mid_head", "reset_mid_body", "reset_during_response", "halfclose_vanish", "silent", "ws_then_reset",
+                               "h2_preface_then_reset", "h2_open_stream_then_reset", "big_unread_then_reset", "garbage", "served_keepalive_then_reset"])
+            kinds_used.append(kind)
+            c = h.connect()
+            if c is None:
+                continue
+            try:
+                if kind == "reset_mid_head":
+                    c.sendall(b"GET /x HTTP/1.1\r\nHo")
+                elif kind == "reset_mid_body":
+                    c.sendall(b"POST /x HTTP/1.1\r\nHost: h\r\nContent-Length: 100\r\n\r\nabc")
+                elif kind == "reset_during_response":
+                    c.sendall(b"GET /slow HTTP/1.1\r\nHost: h\r\n\r\n")
+                elif kind == "halfclose_vanish":
+                    c.sendall(b"GET /slow HTTP/1.1\r\nHost: h\r\n\r\n")
+                    c.shutdown(_socket.SHUT_WR)
+                elif kind == "ws_then_reset":
+                    c.sendall(ws.handshake(path=b"/ws"))
+                elif kind == "h2_preface_then_reset":
+                    c.sendall(client_preface(FrameBuilder(), {}))
+                elif kind == "h2_open_stream_then_reset":
+                    fb = FrameBuilder()
+                    c.sendall(client_preface(fb, {}) + fb.headers(1, [(b":method", b"POST"), (b":scheme", b"http"), (b":path", b"/slow"), (b":authority", b"h")],
+                                                                   end_stream=False))
+                elif kind == "big_unread_then_reset":
+                    c.setsockopt(_socket.SOL_SOCKET, _socket.SO_RCVBUF, 4096)
+                    c.sendall(b"GET /big HTTP/1.1\r\nHost: h\r\n\r\n")
+                elif kind == "garbage":
+                    c.sendall(b"\x16\x03\x01\x02\x00\x01\x00\x01\xfc\x03\x03" + bytes(rnd.randrange(256) for _ in range(40)))
+                elif kind == "served_keepalive_then_reset":
+                    c.sendall(b"GET /k HTTP/1.1\r\nHost: h\r\n\r\n")
+            except OSError:
+                pass
+            socks.append((kind, c))
+            if rnd.random() < 0.3:
+                time.sleep(0.01)
+        time.sleep(0.15)
+        for kind, c in socks:
+            try:
+                if kind in ("silent", "halfclose_vanish") and rnd.random() < 0.5:
+                    c.close()  # an orderly FIN
+                else:
+                    c.setsockopt(_socket.SOL_SOCKET, _socket.SO_LINGER, _struct.pack("ii", 1, 0))
+                    c.close()  # RST
+            except OSError:
+                pass
+        # wait for the census to come to rest
+        last, since = None, time.monotonic()
+        end = time.monotonic() + 40.0
+        now = fds()
+        while time.monotonic() < end:
+            now = fds()
+            if now <= base:
+                break
+            if now != last:
+                last, since = now, time.monotonic()
+            elif time.monotonic() - since > 4.0:
+                break
+            time.sleep(0.05)
+        tally.clause("real-census")
+        tally.events["real.connections-made"] += len(socks)
+        tally.events["real.fds-over-baseline-at-rest"] += max(0, now - base)
+        if now > base:
+            findings.append({"clause": "release", "sig": "C07.real/descriptors-not-released/%s" % be, "backend": be,
+                             "detail": "%d connections (%s) have all been reset or closed by their clients, the keep-alive timeout is 0.4 s, and after 4 s "
+                                       "without any change the server process still holds %d descriptors more than before the first of them" % (
+                                           len(socks), ", ".join(sorted(set(kinds_used))), now - base)})
+    finally:
+        h.trigger_shutdown()
+        h.wait_done(5.0)
+        h.close()
+    return findings, [None]
+
+
+def run_one(case, tally):
+    if case.get("tierb"):
+        return _real_census(case, tally)
+    import sys
+
+    from ..runner import default_run_one
+
+    return default_run_one(sys.modules[__name__], case, tally)
+
+
 def gen(rng, tier):
+    for rep in range(2 if tier == "quick" else 10):
+        for be in ("asyncio", "trio"):
+            yield {"family": "real-census", "tierb": True, "backend": be, "count": 60 if tier == "quick" else 200, "tag": 660000 + rng.randrange(100000), "rep": rep}
     yield from _gen_parked(rng, tier)
     for i in range(N_CASES[tier]):
         h2 = rng.random() < 0.35
@@ -250,7 +383,7 @@ def gen(rng, tier):
 
 
 def nontrivial(case, obs):
-    return True
+    return True  # (obs is None for the real-socket census)
 
 
 def _resp_end_times_h1(obs):
